@@ -29,7 +29,7 @@ Offs(spc, sizes, gap, c, at) == IF c > Len(spc) THEN <<>>
                                 ELSE <<at + gap>> \o Offs(spc, sizes, gap, c + 1, at + gap + SumF(sizes, ChunkStart(spc, c), ChunkStart(spc, c) + spc[c] - 1))
 MetaTables(N) == [stts : {<<[n |-> N, v |-> 2]>>} \cup (IF N >= 2 THEN {<<[n |-> 1, v |-> 1], [n |-> N - 1, v |-> 3]>>} ELSE {}),
                   ctts : {<<>>, <<[n |-> N, v |-> 0]>>} \cup (IF N >= 2 THEN {<<[n |-> 1, v |-> 2], [n |-> N - 1, v |-> 1]>>} ELSE {}),
-                  stss : {{0}} \cup {S \cup {1} : S \in SUBSET (2 .. N)},      \* {0} = box absent
+                  stss : {{0}} \cup SUBSET (1 .. N),      \* {0} = box absent; {} = box present with entry_count 0: NO sample is a sync sample (8.6.2)
                   sdtp : BOOLEAN]
 
 VARIABLES N, tab, res, phase
